@@ -177,6 +177,22 @@ fn main() {
                 }
             }
         }
+        "run-command" => {
+            // one `run_command` call in a process of its own (C14: termination is observed from outside)
+            let out = PathBuf::from(args.get(2).cloned().unwrap_or_default());
+            let script = args.get(3).cloned().unwrap_or_default();
+            silence_stdio();
+            let r = guarded(|| in_toto::runlib::run_command(&["sh", "-c", &script], None));
+            let v = match r {
+                Ok(Ok(bp)) => {
+                    let j = serde_json::to_value(&bp).unwrap_or(serde_json::Value::Null);
+                    serde_json::json!({"ok": true, "stdout_len": j["stdout"].as_str().map(|s| s.len()), "stderr_len": j["stderr"].as_str().map(|s| s.len()), "return_value": j["return-value"]})
+                }
+                Ok(Err(e)) => serde_json::json!({"ok": false, "err": e.to_string()}),
+                Err(pi) => serde_json::json!({"panic": format!("{}:{} {}", pi.file, pi.line, pi.message)}),
+            };
+            let _ = std::fs::write(&out, v.to_string());
+        }
         "verify-dir" => {
             // one verification in a fresh process (fresh hash seeds); used by C13
             let dir = PathBuf::from(args.get(2).cloned().unwrap_or_default());
